@@ -942,6 +942,8 @@ func c17Dropped(c *Ctx, r *Report) {
 					sites = append(sites, site{key, pos, "Close of a handle opened for reading", true})
 				case (name == "os.Remove" || strings.HasSuffix(name, ".Close")) && blockReturnsNonNilError(in.Block()):
 					sites = append(sites, site{key, pos, "cleanup on a path that already returns a non-nil error", true})
+				case (name == "os.Remove" || strings.HasSuffix(name, ".Close")) && closureCalledOnlyOnErrorPaths(fn):
+					sites = append(sites, site{key, pos, "cleanup in a local closure that is called only on paths that already return a non-nil error", true})
 				case name == "bufio.Writer.Flush" && flushOnEveryRecord(in):
 					sites = append(sites, site{key, pos, "per-record flush of a bufio.Writer whose errors are sticky and whose final Flush is checked (R17.5)", true})
 				default:
@@ -1581,4 +1583,34 @@ func checkReadCall(c *Ctx, r *Report, fn *ssa.Function, call *ssa.Call, mname st
 		"a read failure (unreadable file, directory, truncated compressed stream, failing prepipe) is treated like end of input: exit status 0 and no diagnostic — "+silent)
 	key2 := fmt.Sprintf("%s: %s error ends the loop", SSAName(fn), mname)
 	r.Check(loops == "", "R17.12", key2, c.Rel(call.Pos()), "no path from a failed read back to the read", "a failed read does not end the loop: "+loops)
+}
+
+// closureCalledOnlyOnErrorPaths: fn is an anonymous function, it is called at
+// least once, never escapes, and every call sits in a block that returns a
+// non-nil error.
+func closureCalledOnlyOnErrorPaths(fn *ssa.Function) bool {
+	parent := fn.Parent()
+	if parent == nil {
+		return false
+	}
+	calls := 0
+	for _, b := range parent.Blocks {
+		for _, in := range b.Instrs {
+			mc, ok := in.(*ssa.MakeClosure)
+			if !ok || mc.Fn != fn {
+				continue
+			}
+			for _, ref := range *mc.Referrers() {
+				call, ok := ref.(*ssa.Call)
+				if !ok || call.Call.Value != mc {
+					return false // stored, passed on or deferred: not a plain local helper
+				}
+				if !blockReturnsNonNilError(call.Block()) {
+					return false
+				}
+				calls++
+			}
+		}
+	}
+	return calls > 0
 }
